@@ -129,3 +129,57 @@ def run_hist(spec: dict) -> dict:
                 g.rng = r
                 refs[k] = _call(g, c, r)
     return {"ok": True, "calls": calls, "refs": refs, "attrs_before": before, "attrs_after": after}
+
+
+def run_site(spec: dict) -> dict:
+    """the real producer of (sampling mask, ACS mask) pairs: ONE `CreateSamplingMask(mask_func, shape=crop,
+    use_seed=True, return_acs=True)` transform applied to a sequence of samples (`spec["filenames"]`), as the data
+    pipeline does for a whole dataset.  `spec["crop"]`: None | [h, w] | entries None ("allow None as values").
+    Per sample: the two masks the transform stored, and the recorded call of a fresh mask function with the seed the
+    transform is documented to derive (tuple(map(ord, filename))) on the effective shape."""
+    import boot  # noqa: F401
+    import torch
+
+    from direct.data.mri_transforms import CreateSamplingMask
+
+    extra = dict(spec.get("extra", {}))
+    mk = lambda: G.make(spec["gen"], spec["mode"], spec["acc"], spec.get("cf"),  # noqa: E731
+                        via_build=bool(spec.get("via_build")), **extra)
+    shape = list(spec["shape"])
+    crop = spec.get("crop")
+    try:
+        tr = CreateSamplingMask(mk(), shape=None if crop is None else tuple(crop), use_seed=True, return_acs=True)
+    except BaseException as e:  # noqa: BLE001
+        if isinstance(e, (KeyboardInterrupt, SystemExit)):
+            raise
+        return {"ok": False, "err": type(e).__name__, "msg": str(e)[:160], "stage": "construct"}
+    # effective shape as documented: the crop shape (None entries filled from the k-space) + the complex axis
+    if crop is None:
+        eff = shape
+    else:
+        eff = [c if c else shape[:-1][i] for i, c in enumerate(crop)] + [2]
+    out = []
+    for fname in spec["filenames"]:
+        rec = {"filename": fname, "eff_shape": eff}
+        try:
+            sample = tr({"kspace": torch.zeros((2, *shape)), "filename": fname})
+            for key in ("sampling_mask", "acs_mask"):
+                m = sample[key]
+                a = m.numpy()
+                rec[key] = {"ok": True, "shape": list(a.shape), "dtype": str(m.dtype), "cols": eff[-2],
+                            "rows": G.pack_rows(a, eff[-2]) if a.size % max(eff[-2], 1) == 0 else None}
+        except BaseException as e:  # noqa: BLE001
+            if isinstance(e, (KeyboardInterrupt, SystemExit)):
+                raise
+            rec["err"] = {"ok": False, "err": type(e).__name__, "msg": str(e)[:160]}
+        g = mk()
+        r = G._recording_rng()
+        g.rng = r
+        rec["ref_mask"] = _call(g, {"shape": eff, "seed": {"k": "fname", "v": fname}, "return_acs": False}, r)
+        out.append(rec)
+    return {"ok": True, "samples": out}
+
+
+def run(spec: dict) -> dict:
+    """worker entry point: dispatch on spec["kind"] (default: history)"""
+    return run_site(spec) if spec.get("kind") == "site" else run_hist(spec)
